@@ -179,7 +179,7 @@ theorem attrOK_of_safe : ∀ {a : Attrs}, wfAttrs a = true → (attrAtoms a).all
     simp only [wfAttrs, List.map_cons, List.all_cons, Bool.and_eq_true] at hw
     simp only [attrAtoms, List.all_cons, Bool.and_eq_true] at hs
     rcases List.mem_cons.mp hp with rfl | hp
-    · exact ⟨hw.2.1.1, hw.2.1.2, (safe_qstr hs.1).2, (safe_qstr hs.2.1).2⟩
+    · exact ⟨hw.2.1.1, hw.2.1.2, safe_qstr hs.1, safe_qstr hs.2.1⟩
     · have hw' : wfAttrs r = true := by
         simp only [wfAttrs, Bool.and_eq_true]
         refine ⟨?_, hw.2.2⟩
@@ -253,7 +253,7 @@ theorem pValue_textNode {n : TextNode} {f : Nat} {rest : Str} (hw : n.wf = true)
       simp [marshalTextNode, sVal]
     rw [e]
     have hm := pMembers_last (f := f' + 1) (jString_key sVal _ (by decide)) (skipWs_quote val _)
-      (pValue_str (f := f') (rest := 125 :: rest) hw.1 hval.2)
+      (pValue_str (f := f') (rest := 125 :: rest) hw.1 hval)
     rw [pValue_obj hm, canon_one]
     simp [textNodeJ]
   | cons p r =>
@@ -269,7 +269,7 @@ theorem pValue_textNode {n : TextNode} {f : Nat} {rest : Str} (hw : n.wf = true)
     have hobj := pValue_attrsObj (f := f') (rest := 125 :: rest) hne hw.2 hs.2 (by omega)
     have hlast := pMembers_last (f := f') (jString_key sAttrs _ (by decide)) (skipWs_cons (by decide)) hobj
     have hm := pMembers_more (f := f' + 1) (jString_key sVal _ (by decide)) (skipWs_quote val _)
-      (pValue_str (f := f') hw.1 hval.2) (skipWs_cons (by decide)) hlast
+      (pValue_str (f := f') hw.1 hval) (skipWs_cons (by decide)) hlast
     rw [pValue_obj hm, canon_val_attrs]
     simp [textNodeJ]
 
@@ -358,9 +358,9 @@ theorem pValue_tree : ∀ (r : TreeNode) (f : Nat) (rest : Str), r.wf = true →
         simp [marshalTree, htext, sType, sValue]
       rw [e]
       have hlast := pMembers_last (f := f' + 1) (jString_key sValue _ (by decide)) (skipWs_quote v _)
-        (pValue_str (f := f') (rest := 125 :: rest) hwv hv'.2)
+        (pValue_str (f := f') (rest := 125 :: rest) hwv hv')
       have hm := pMembers_more (f := f' + 2) (jString_key sType _ (by decide)) (skipWs_quote ty _)
-        (pValue_str (f := f' + 1) hwty hty'.2) (skipWs_cons (by decide)) hlast
+        (pValue_str (f := f' + 1) hwty hty') (skipWs_cons (by decide)) hlast
       rw [pValue_obj hm, canon_type_value]
       simp [treeJ, htext]
     · have htext' : (ty == sText) = false := by simpa using htext
@@ -379,7 +379,7 @@ theorem pValue_tree : ∀ (r : TreeNode) (f : Nat) (rest : Str), r.wf = true →
           (fun hne => pElems_treeList c (f' + 1) _ hne hwc hc (by omega))
         have hlast := pMembers_last (f := f' + 2) (jString_key sChildren _ (by decide)) (skipWs_cons (by decide)) hkids
         have hm := pMembers_more (f := f' + 3) (jString_key sType _ (by decide)) (skipWs_quote ty _)
-          (pValue_str (f := f' + 2) hwty hty'.2) (skipWs_cons (by decide)) hlast
+          (pValue_str (f := f' + 2) hwty hty') (skipWs_cons (by decide)) hlast
         rw [pValue_obj hm, canon_type_children]
         simp [treeJ, htext']
       | cons p r =>
@@ -403,7 +403,7 @@ theorem pValue_tree : ∀ (r : TreeNode) (f : Nat) (rest : Str), r.wf = true →
         have hmid := pMembers_more (f := f' + 2) (jString_key sAttrs _ (by decide)) (skipWs_cons (by decide)) hobj
           (skipWs_cons (by decide)) hlast
         have hm := pMembers_more (f := f' + 3) (jString_key sType _ (by decide)) (skipWs_quote ty _)
-          (pValue_str (f := f' + 2) hwty hty'.2) (skipWs_cons (by decide)) hmid
+          (pValue_str (f := f' + 2) hwty hty') (skipWs_cons (by decide)) hmid
         rw [pValue_obj hm, canon_type_attrs_children]
         simp [treeJ, htext']
 theorem pElems_treeList : ∀ (c : List TreeNode) (f : Nat) (rest : Str), c ≠ [] → TreeNode.wfList c = true →
@@ -510,61 +510,6 @@ theorem skipWs_showInt (n : Int) (rest : Str) : skipWs (showInt n ++ rest) = sho
   rw [hcu]
   exact skipWs_cons (not_ws_of_numHead hc).1
 
-theorem b64Encode_forall {P : Nat → Prop} (hch : ∀ n, P (b64Char n)) (hpad : P 61) :
-    ∀ (bs : List Nat) (c : Nat), c ∈ b64Encode bs → P c := by
-  intro bs
-  induction bs using b64Encode.induct with
-  | case1 => intro c hc; simp [b64Encode] at hc
-  | case2 a =>
-    intro c hc
-    simp only [b64Encode, List.mem_cons, List.not_mem_nil, or_false] at hc
-    rcases hc with rfl | rfl | rfl | rfl
-    · exact hch _
-    · exact hch _
-    · exact hpad
-    · exact hpad
-  | case3 a b =>
-    intro c hc
-    simp only [b64Encode, List.mem_cons, List.not_mem_nil, or_false] at hc
-    rcases hc with rfl | rfl | rfl | rfl
-    · exact hch _
-    · exact hch _
-    · exact hch _
-    · exact hpad
-  | case4 a b c' r ih =>
-    intro c hc
-    simp only [b64Encode, List.mem_cons] at hc
-    rcases hc with rfl | rfl | rfl | rfl | h
-    · exact hch _
-    · exact hch _
-    · exact hch _
-    · exact hch _
-    · exact ih c h
-
-theorem b64Char_raw (n : Nat) : keyNeedsEscape (b64Char n) = false := by
-  simp only [b64Char]
-  split
-  · simp [keyNeedsEscape]; omega
-  · split
-    · simp [keyNeedsEscape]; omega
-    · split
-      · simp [keyNeedsEscape]; omega
-      · split <;> simp [keyNeedsEscape]
-
-theorem b64_raw (bs : List Nat) : (b64Encode bs).any keyNeedsEscape = false :=
-  List.any_eq_false.mpr (fun c hc => by
-    have := b64Encode_forall (P := fun c => keyNeedsEscape c = false) b64Char_raw (by decide) bs c hc
-    simp [this])
-
-theorem date_raw {t : Str} (h : dateValid t = true) : t.any keyNeedsEscape = false := by
-  simp only [dateValid, Bool.and_eq_true] at h
-  apply List.any_eq_false.mpr
-  intro c hc
-  have := (List.all_eq_true.mp h.1) c hc
-  simp only [dateChar, isDigit, Bool.or_eq_true, Bool.and_eq_true, decide_eq_true_eq, beq_iff_eq] at this
-  simp only [keyNeedsEscape, Bool.or_eq_true, beq_iff_eq, decide_eq_true_eq]
-  omega
-
 /-! ### the first character of a value's text -/
 
 theorem marshalP_head : ∀ (v : Yson), v.wf = true → (atoms v).all Atom.safe = true →
@@ -670,7 +615,7 @@ theorem pValue_marshalP : ∀ (v : Yson) (f : Nat) (rest : Str), v.wf = true →
     simp only [Yson.wf] at hw
     simp only [atoms, List.all_cons, List.all_nil, Bool.and_true] at hs
     obtain ⟨f', rfl⟩ : ∃ f', f = f' + 1 := ⟨f - 1, by omega⟩
-    exact pValue_str hw (safe_qstr hs).2
+    exact pValue_str hw (safe_qstr hs)
   | .int n, f, rest, _, _, _, hf => by
     simp only [marshalP, List.length_append, List.length_cons, List.length_nil] at hf
     obtain ⟨f', rfl⟩ : ∃ f', f = f' + 4 := ⟨f - 4, by omega⟩
@@ -864,7 +809,7 @@ theorem pMembers_marshalP : ∀ (kvs : List (Str × Yson)) (f : Nat) (rest : Str
     have hk : keyPiece k ++ marshalP x ++ 125 :: rest = 34 :: (k ++ 34 :: 58 :: (marshalP x ++ 125 :: rest)) := by
       simp [keyPiece]
     rw [hk]
-    exact pMembers_last (jString_key k _ (safe_key hs.1).2) (skipWs_marshalP hw.1.2 hs1 _)
+    exact pMembers_last (jString_key k _ (safe_key hs.1)) (skipWs_marshalP hw.1.2 hs1 _)
       (pValue_marshalP x f' _ hw.1.2 hs1 (numStop_cons (Or.inr (Or.inr rfl))) (by omega))
   | (k, x) :: (k2, x2) :: r, f, rest, _, hw, hs, hf => by
     simp only [Yson.wfKvs, Bool.and_eq_true] at hw
@@ -887,7 +832,7 @@ theorem pMembers_marshalP : ∀ (kvs : List (Str × Yson)) (f : Nat) (rest : Str
       simp only [marshalPKvs]
       rw [hT']
       simp [keyPiece, skipWs, isWs]
-    simpa [toJKvs] using pMembers_more (jString_key k _ (safe_key hs'.1).2) (skipWs_marshalP hw.1.2 hs1 _)
+    simpa [toJKvs] using pMembers_more (jString_key k _ (safe_key hs'.1)) (skipWs_marshalP hw.1.2 hs1 _)
       (pValue_marshalP x f' _ hw.1.2 hs1 (numStop_cons (Or.inl rfl)) (by omega)) hsk ih
 end
 
